@@ -18,3 +18,10 @@
         o.step_size == self.step_size && o.transformation == self.transformation && o.kinetic_energy_kind == self.kinetic_energy_kind
         && o.momentum_decoherence_length == self.momentum_decoherence_length && M::vv(&o.ones) == M::vv(&self.ones) && M::vv(&o.zeros) == M::vv(&self.zeros)
     }
+    open spec fn refresh_post(&self, post: &Self, p0: &State<M, Self::Point>, p1: &State<M, Self::Point>, r: core::result::Result<(), NutsError>) -> bool {
+        &&& self.same_kernel(post)
+        // [C18.4] after a refresh of the microcanonical sampler the momentum has unit norm
+        &&& (r is Ok && self.momentum_decoherence_length is Some && self.kinetic_energy_kind is Microcanonical
+                ==> dot_s(pv(p1.p).v, pv(p1.p).v) == 1real)
+        &&& (self.momentum_decoherence_length is None ==> r is Ok && p1.p == p0.p)
+    }
